@@ -54,11 +54,13 @@ class Dig(str):
 
     symbolic_order = False
 
-    def __new__(cls, alg, val):
+    def __new__(cls, alg, val, order=None):
         o = str.__new__(cls, new_key("DIG"))
         o.alg = alg
         o.val = val
-        o.serial = _SERIAL[0]
+        # non-symbolic order mode: a fixed total order on digest *terms* (index of first creation), identical for
+        # every Dig object of the same term, so the code under test and the reference evaluator sort alike
+        o.serial = _SERIAL[0] if order is None else order
         register(o)
         return o
 
@@ -82,9 +84,10 @@ class Dig(str):
     def __lt__(self, o):
         if not isinstance(o, Dig) or o.alg != self.alg:
             raise pse.Concretisation("ordering digests of different kinds")
-        if Dig.symbolic_order:
-            return pse.SymBool(self.val < o.val)
-        return self.serial < o.serial
+        import z3
+        if not Dig.symbolic_order and z3.is_int_value(self.val) and z3.is_int_value(o.val):
+            return self.val.as_long() < o.val.as_long()  # concrete values: order of first creation
+        return pse.SymBool(self.val < o.val)
 
     def __gt__(self, o):
         return o.__lt__(self)
@@ -99,6 +102,9 @@ class Dig(str):
 
     def __hash__(self):
         raise pse.Concretisation("hash(Dig)")
+
+    def __bool__(self):
+        return True  # a digest string is never empty
 
     def __len__(self):
         raise pse.Concretisation("len(Dig)")
